@@ -293,4 +293,211 @@ theorem hist_genuine {C : CodecNew} {d p : Nat} {enc : Option Encoder} {W CW : L
         show 0 < IKCP_OVERHEAD
         decide
 
+/-! ### one `encode` call -/
+
+theorem encodeMany_length (c : Bool) : ∀ (bs : List Bytes) (e : Encoder), (encodeMany e bs c).2.length = bs.length := by
+  intro bs
+  induction bs with
+  | nil => intro e; rfl
+  | cons b rest ih => intro e; show ((_, _) :: (encodeMany (e.encode b c).st rest c).2).length = _; simp [ih]
+
+theorem getD_snoc_lt (bs : List Bytes) (b : Bytes) (i : Nat) (hi : i < bs.length) :
+    (bs ++ [b]).getD i [] = bs.getD i [] := by
+  rw [List.getD_eq_getElem?_getD, List.getD_eq_getElem?_getD, List.getElem?_append_left hi]
+
+theorem getD_snoc_eq (bs : List Bytes) (b : Bytes) : (bs ++ [b]).getD bs.length [] = b := by
+  rw [List.getD_eq_getElem?_getD, List.getElem?_append_right (Nat.le_refl _)]
+  simp
+
+theorem getD_mem (bs : List Bytes) (i : Nat) (hi : i < bs.length) : bs.getD i [] ∈ bs := by
+  rw [List.getD_eq_getElem?_getD, List.getElem?_eq_getElem hi]
+  exact List.getElem_mem hi
+
+/-- **the invariant is kept by one `encode` call** of a datagram `o` the core emitted (8 bytes of room
+in front), whatever the time test says -/
+theorem hist_encode {C : CodecNew} (hC : Lawful C) {d p : Nat} {e : Encoder} {W CW : List Bytes}
+    (h : Hist C d p (some e) W CW) (o : Bytes) (ho : IKCP_OVERHEAD ≤ o.length) (cont : Bool)
+    (hp : (e.encode (List.replicate fecHeaderSizePlus2 0 ++ o) cont).panic = false) :
+    Hist C d p (some (e.encode (List.replicate fecHeaderSizePlus2 0 ++ o) cont).st)
+      (W ++ ((e.encode (List.replicate fecHeaderSizePlus2 0 ++ o) cont).data ::
+        (e.encode (List.replicate fecHeaderSizePlus2 0 ++ o) cont).parity)) (CW ++ [o]) := by
+  intro hw'
+  obtain ⟨gs, e0, bs, H⟩ := h hw'.mono
+  generalize hb : List.replicate fecHeaderSizePlus2 0 ++ o = b at hp ⊢
+  have hbd : b.drop 8 = o := by rw [← hb]; exact List.drop_left' (by simp [fecHeaderSizePlus2])
+  have hbl : b.length = 8 + o.length := by rw [← hb]; simp [fecHeaderSizePlus2]; omega
+  have he : e = (encodeMany e0 bs true).1 := Option.some.inj H.enc
+  have hsz : ∀ x ∈ bs, e0.headerOffset + fecHeaderSize + 2 ≤ x.length ∧ x.length ≤ mtuLimit := by
+    intro x hx
+    have := H.bsok x hx
+    rw [H.ho]; unfold fecHeaderSize; omega
+  obtain ⟨m1, m2, m3, m4, m5, m6⟩ := encodeMany_mid (C := C) true bs e0 H.inv hsz (by rw [H.hs, H.hd]; have := H.len; omega)
+  obtain ⟨hinv, hoff⟩ := inv_encodeMany (C := C) true bs e0 H.inv hsz
+  rw [← he] at m1 m2 m3 m4 m5 hinv hoff
+  rw [H.ho] at hoff
+  rw [H.hs, Nat.zero_add] at m2
+  have hpo : e.payloadOffset + 2 = 8 := by unfold Encoder.payloadOffset fecHeaderSize; rw [hoff]
+  obtain ⟨hb1, hb2⟩ := encode_panic_false hp
+  have hcnt : bigCount (CW ++ [o]) = gs.length * d + bs.length + 1 := by
+    rw [bigCount_append, H.cnt]
+    unfold bigCount
+    simp [ho]
+  have hdpos : 0 < d := by rw [← H.hd]; exact H.inv.d_pos
+  have hnext : e.next = BitVec.ofNat 32 (gs.length * (d + p) + bs.length) := by
+    rw [m1, H.hn, ← BitVec.ofNat_add]
+  have hdata : (e.encode b cont).data = openPkt (gs.length * (d + p)) bs.length b := by
+    rw [encode_data hb1 hb2, hoff, hpo, hnext]
+    rfl
+  have hCWmono : ∀ x, x ∈ CW → x ∈ CW ++ [o] := fun x hx => List.mem_append_left _ hx
+  have hgsok : ∀ i G, gs[i]? = some G → G.WF ∧ G.d = d ∧ G.p = p ∧ G.base = BitVec.ofNat 32 (i * (d + p)) ∧
+      ∀ k, k < d → G.payloads.getD k [] ∈ CW ++ [o] := by
+    intro i G hG
+    obtain ⟨g1, g2, g3, g4, g5⟩ := H.gsok i G hG
+    exact ⟨g1, g2, g3, g4, fun k hk => hCWmono _ (g5 k hk)⟩
+  have hbsok : ∀ x ∈ bs ++ [b], 8 ≤ x.length ∧ x.length ≤ mtuLimit ∧ x.drop 8 ∈ CW ++ [o] := by
+    intro x hx
+    rcases List.mem_append.mp hx with h1 | h1
+    · obtain ⟨a1, a2, a3⟩ := H.bsok x h1
+      exact ⟨a1, a2, hCWmono _ a3⟩
+    · rw [List.mem_singleton.mp h1, hbd]
+      exact ⟨by omega, hb2, by simp⟩
+  by_cases hm : bs.length + 1 = d
+  · -- the group fills
+    have hbelow2 : (gs.length + 2) * (d + p) ≤ (pawsOf (d + p)).toNat := by
+      unfold NoWrap at hw'
+      rw [hcnt] at hw'
+      have : (gs.length * d + bs.length + 1) / d = gs.length + 1 := by
+        have : gs.length * d + bs.length + 1 = (gs.length + 1) * d + 0 := by rw [Nat.add_mul]; omega
+        rw [this, div_group _ _ _ hdpos]
+      rw [this] at hw'
+      exact hw'
+    have hexp2 : (gs.length + 2) * (d + p) = (gs.length + 1) * (d + p) + (d + p) := by
+      have : gs.length + 2 = (gs.length + 1) + 1 := rfl
+      rw [this, Nat.add_mul, Nat.one_mul]
+    have hexp1 : (gs.length + 1) * (d + p) = gs.length * (d + p) + (d + p) := by rw [Nat.add_mul, Nat.one_mul]
+    have hppos : 0 < p := by rw [← H.hp]; exact H.inv.p_pos
+    have hlt := (pawsOf (d + p)).isLt
+    have hbs'len : (bs ++ [b]).length = d := by rw [List.length_append]; simpa using hm
+    have hG : (openGroup d p gs.length (bs ++ [b])).WF :=
+      openGroup_wf H.inv H.hd H.hp gs.length (bs ++ [b]) (by omega)
+        (fun x hx => ⟨(hbsok x hx).1, (hbsok x hx).2.1⟩) (by omega)
+    generalize hGdef : openGroup d p gs.length (bs ++ [b]) = G at hG
+    have hGd : G.d = d := by rw [← hGdef]; rfl
+    have hGp : G.p = p := by rw [← hGdef]; rfl
+    have hGn : G.n = d + p := by unfold Group.n; rw [hGd, hGp]
+    have hGb : G.base = BitVec.ofNat 32 (gs.length * (d + p)) := by rw [← hGdef]; rfl
+    have hGpl : G.payloads = (bs ++ [b]).map (List.drop 8) := by
+      rw [← hGdef]
+      show (bs ++ [b]).map (List.drop 8) ++ List.replicate (d - (bs ++ [b]).length) [] = _
+      rw [hbs'len, Nat.sub_self]; simp
+    have hpo0 : e0.payloadOffset + 2 = 8 := by unfold Encoder.payloadOffset fecHeaderSize; rw [H.ho]
+    obtain ⟨a1, _, a3⟩ := enc_group hC hG H.inv (by rw [H.hd, hGd]) (by rw [H.hp, hGp]) H.hs (by rw [H.hn, hGb])
+      (bs := bs ++ [b]) (by rw [hpo0, hGpl])
+      (by intro x hx; rw [hpo0]; exact ⟨(hbsok x hx).1, (hbsok x hx).2.1⟩) cont
+    obtain ⟨s1, s2⟩ := encodeMany_snoc cont bs e0 b
+    have hirr : encodeMany e0 bs cont = encodeMany e0 bs true := by
+      cases cont
+      · exact m6.symm
+      · rfl
+    rw [hirr, ← he] at s1 s2
+    -- the new group-start encoder
+    have hst : (e.encode b cont).st = { e0 with next := advance G.base G.n e0.paws } := by rw [← s1, a1]
+    have hinv' : EncInv C { e0 with next := advance G.base G.n e0.paws } := by
+      have := (inv_encodeMany (C := C) cont (bs ++ [b]) e0 H.inv (by
+        intro x hx; rw [H.ho]; unfold fecHeaderSize; have := hbsok x hx; omega)).1
+      rw [a1] at this; exact this
+    have hpaws : e0.paws = pawsOf G.n := by rw [H.inv.paws_eq, H.inv.n_eq, H.hd, H.hp, hGn]
+    have hbaseN : G.base.toNat = gs.length * (d + p) := by
+      rw [hGb, BitVec.toNat_ofNat, Nat.mod_eq_of_lt (by omega)]
+    have hnext' : advance G.base G.n e0.paws = BitVec.ofNat 32 ((gs.length + 1) * (d + p)) := by
+      apply BitVec.eq_of_toNat_eq
+      rw [hpaws, (group_next hG).2.1, hbaseN, hGn, BitVec.toNat_ofNat, Nat.mod_eq_of_lt (by omega)]
+      rw [if_neg (by omega)]; omega
+    -- the last call's output
+    have hlast : (e.encode b cont).data = G.packet C (d - 1) ∧
+        (e.encode b cont).parity = if cont = true then (List.range G.p).map (fun k => G.packet C (G.d + k)) else [] := by
+      have h1 := a3 (d - 1) (by rw [hGd]; omega)
+      rw [s2, List.getElem?_append_right (by rw [encodeMany_length]; omega), encodeMany_length] at h1
+      have hz : d - 1 - bs.length = 0 := by omega
+      rw [hz] at h1
+      simp only [List.getElem?_cons_zero, Option.some.injEq, Prod.mk.injEq, H.ho, List.take_zero, List.nil_append,
+        List.replicate_zero] at h1
+      refine ⟨h1.1, ?_⟩
+      rw [h1.2]
+      have : d - 1 + 1 = G.d := by rw [hGd]; omega
+      simp only [this, true_and]
+    refine ⟨gs ++ [G], { e0 with next := advance G.base G.n e0.paws }, [], ?_⟩
+    refine ⟨hinv', H.hd, H.hp, H.ho, H.hs, ?_, hdpos, ?_, (fun x hx => by cases hx), ?_, ?_, ?_⟩
+    · show advance G.base G.n e0.paws = _
+      rw [hnext', List.length_append]; rfl
+    · rw [hst]; rfl
+    · -- finished groups
+      intro i G' hG'
+      rcases Nat.lt_or_ge i gs.length with hi | hi
+      · rw [List.getElem?_append_left hi] at hG'
+        exact hgsok i G' hG'
+      · rw [List.getElem?_append_right hi] at hG'
+        have hi0 : i - gs.length = 0 := by
+          rcases Nat.eq_zero_or_pos (i - gs.length) with h0 | h0
+          · exact h0
+          · rw [List.getElem?_eq_none (by simp only [List.length_singleton]; omega)] at hG'; cases hG'
+        rw [hi0] at hG'
+        have hGG : G = G' := by simpa using hG'
+        have hii : i = gs.length := by omega
+        rw [← hGG, hii]
+        refine ⟨hG, hGd, hGp, hGb, fun k hk => ?_⟩
+        rw [← hGdef, openGroup_payload, if_pos (by omega)]
+        exact (hbsok _ (getD_mem _ k (by omega))).2.2
+    · -- the wire
+      intro q hq
+      left
+      rcases List.mem_append.mp hq with h1 | h1
+      · rcases H.wire q h1 with ⟨i, G', j, g1, g2, g3⟩ | ⟨i, hi, rfl⟩
+        · have hil : i < gs.length := by
+            rcases Nat.lt_or_ge i gs.length with h2 | h2
+            · exact h2
+            · rw [List.getElem?_eq_none h2] at g1; cases g1
+          exact ⟨i, G', j, by rw [List.getElem?_append_left hil]; exact g1, g2, g3⟩
+        · refine ⟨gs.length, G, i, by rw [List.getElem?_append_right (Nat.le_refl _)]; simp, by rw [hGn]; omega, ?_⟩
+          rw [packet_open C G hG (gs.length * (d + p)) i hGb (by rw [hGd]; omega), ← hGdef, openGroup_payload,
+            if_pos (by omega), getD_snoc_lt _ _ _ hi]
+          rfl
+      · have hgG : (gs ++ [G])[gs.length]? = some G := by
+          rw [List.getElem?_append_right (Nat.le_refl _)]; simp
+        rcases List.mem_cons.mp h1 with h2 | h2
+        · exact ⟨gs.length, G, d - 1, hgG, by rw [hGn]; omega, by rw [h2, hlast.1]⟩
+        · rw [hlast.2] at h2
+          cases cont
+          · simp at h2
+          · simp only [↓reduceIte, List.mem_map, List.mem_range] at h2
+            obtain ⟨k, hk, rfl⟩ := h2
+            exact ⟨gs.length, G, G.d + k, hgG, by unfold Group.n; omega, rfl⟩
+    · rw [hcnt, List.length_append]
+      show _ = (gs.length + 1) * d + 0
+      rw [Nat.add_mul]; omega
+  · -- inside the group
+    have hmid : e.shardCount + 1 ≠ e.d := by rw [m2, m3, H.hd]; exact hm
+    obtain ⟨p1, p2⟩ := encode_mid (cont := cont) hb1 hb2 hmid
+    obtain ⟨s1, _⟩ := encodeMany_snoc true bs e0 b
+    rw [← he] at s1
+    have hirr : e.encode b cont = e.encode b true := by
+      cases cont
+      · exact (encode_cont_irrel e b hmid).symm
+      · rfl
+    refine ⟨gs, e0, bs ++ [b], ?_⟩
+    have hlen' := H.len
+    refine ⟨H.inv, H.hd, H.hp, H.ho, H.hs, H.hn, (by rw [List.length_append]; simp; omega), ?_, hbsok, hgsok, ?_, ?_⟩
+    · rw [s1, hirr]
+    · intro q hq
+      rw [p1] at hq
+      rcases List.mem_append.mp hq with h1 | h1
+      · rcases H.wire q h1 with hfin | ⟨i, hi, rfl⟩
+        · exact Or.inl hfin
+        · right
+          exact ⟨i, by rw [List.length_append]; omega, by rw [getD_snoc_lt _ _ _ hi]⟩
+      · right
+        have : q = (e.encode b cont).data := by simpa using h1
+        exact ⟨bs.length, by rw [List.length_append]; simp, by rw [this, hdata, getD_snoc_eq]⟩
+    · rw [hcnt, List.length_append]; simp; omega
+
 end KcpVerif.C01
